@@ -1,9 +1,42 @@
 """Fail-closed translator  cij/util/voigt.py  ->  Gen_voigt.v  (Gallina over Z).
 
-Accepted grammar (anything else raises Untranslatable, which the check reports as a
-broken tie): the VOIGT_TO_STANDARD dict literal of int -> (int, int); the bodies of
-from_voigt / from_standard of both classes in the statement forms listed in `stmt`;
-the expression bodies of is_shear / is_longitudinal / is_off_diagonal / multiplicity.
+The module is read by a small SYMBOLIC EVALUATOR, not by body templates: every function is executed on
+symbolic arguments; what can be decided from the kind of a value (None / int / str / tuple length /
+class) is decided during translation, everything else becomes a Gallina term in the exception monad
+`option` (None = "the Python code raises").  Calls of the interface functions (from_voigt, from_standard,
+.voigt of a strain, the three predicates, multiplicity) stay calls of the generated definitions; every
+other function, method, property, lambda and private module-level helper is inlined.
+
+Accepted grammar (anything else raises Untranslatable naming line and construct):
+  module     docstring, imports, VOIGT_TO_STANDARD = {int: (int, int), ...} (distinct keys and values),
+             STANDARD_TO_VOIGT = its inverse as dict(generator/list comprehension) or dict comprehension,
+             constants NAME = literal, aliases NAME = Class, class and function definitions; every
+             module-level name bound once
+  classes    the two NamedTuples with fields i, j; methods decorated by classmethod / property /
+             staticmethod or undecorated
+  statements return, raise Exc(...) [= None], if / elif / else with early returns, assert,
+             name = e, name: T = e, (a, b) = e, docstrings
+  conditions is / is not None, type(x) == / is / != / is not T, isinstance(x, int|str), == != < <= > >=
+             (also chained) on integers, == != on strains / moduli / booleans, and / or / not
+             (short-circuit), x in / not in {int, ...}, x in / not in VOIGT_TO_STANDARD[.keys()|.values()],
+             STANDARD_TO_VOIGT[.keys()|.values()], a if c else b
+  integers   literals, + - * unary -, a << b with b a boolean or a provably non-negative term
+             (1 << a << b, 1 << (x + y + z)), int(bool), int(x), booleans used as integers
+  data       VOIGT_TO_STANDARD[x] (KeyError = None), STANDARD_TO_VOIGT[x], tuples / lists with *splices,
+             x[const], fields and properties of the two classes, tuple(x), list(x), len(x),
+             sorted((a, b)) on integers, sorted((a, b), key=lambda e: ...) and key=attrgetter("name")
+             on strains (the key is translated, not matched), sorted((a, b)) on strains (NamedTuple
+             order: translated as such, a DIFFERENT model), str(int), *(int(k) for k in s), *map(int, s),
+             *[int(k) for k in s], cls(...), calls with positional / keyword / default / *args binding
+             (arity errors = None), recursion (re-entry with identical arguments = RecursionError = None)
+  ignored    __repr__, calc_type, the Enum class and anything no entry point reaches; the message of a raise
+             (f-string / %-format / .format: not evaluated)
+Entry points (one Gallina definition each; same names and types as ever):
+  strain_create args   = StrainRepresentation._(*args), args a list of ints of any length
+  mod_create args      = ModulusRepresentation._(*args), likewise - except a single int, which is
+  mod_create_int n     = ModulusRepresentation._(n)
+  the string spellings _("ijkl") are CHECKED to translate to exactly the same term as _(*digits), so the
+  correspondence shards may spell them as lists.
 """
 import ast
 
@@ -13,258 +46,1524 @@ class Untranslatable(Exception):
 
 
 def bail(node, why=""):
-    raise Untranslatable("translator cannot read %s at line %s %s" % (
-        type(node).__name__, getattr(node, "lineno", "?"), why))
+    src = ""
+    try:
+        src = ast.unparse(node)
+        if len(src) > 80:
+            src = src[:77] + "..."
+    except Exception:
+        pass
+    raise Untranslatable("translator cannot read %s at line %s%s%s" % (
+        type(node).__name__, getattr(node, "lineno", "?"),
+        (" (" + why + ")") if why else "", (": " + src) if src else ""))
 
 
 def z(n):
     return "(%d)" % n if n < 0 else str(n)
 
 
-def table(mod):
-    for n in mod.body:
-        if isinstance(n, ast.Assign) and len(n.targets) == 1 and \
-                isinstance(n.targets[0], ast.Name) and n.targets[0].id == "VOIGT_TO_STANDARD":
-            d = n.value
-            if not isinstance(d, ast.Dict):
-                bail(d)
-            out = []
-            for k, v in zip(d.keys, d.values):
-                if not (isinstance(k, ast.Constant) and type(k.value) is int):
-                    bail(k)
-                if not (isinstance(v, ast.Tuple) and len(v.elts) == 2 and
-                        all(isinstance(e, ast.Constant) and type(e.value) is int for e in v.elts)):
-                    bail(v)
-                out.append((k.value, (v.elts[0].value, v.elts[1].value)))
-            return out
-    raise Untranslatable("VOIGT_TO_STANDARD not found")
+MAXN = 5          # list lengths 0..MAXN are enumerated, longer lists are treated as one symbolic case
+
+# ---------------------------------------------------------------------------------------------------
+# terms: nested tuples.  Types: 'Z', 'B', 'S' (Z * Z: strain, sorted int pair), 'M' (strain * strain)
+# ---------------------------------------------------------------------------------------------------
 
 
-def check_reverse(mod):
-    """STANDARD_TO_VOIGT must be the literal inverse-dict construction."""
-    want = "dict(((v, k) for k, v in VOIGT_TO_STANDARD.items()))"
-    for n in mod.body:
-        if isinstance(n, ast.Assign) and isinstance(n.targets[0], ast.Name) and \
-                n.targets[0].id == "STANDARD_TO_VOIGT":
-            got = ast.unparse(n.value)
-            if got.replace(" ", "") != want.replace(" ", ""):
-                raise Untranslatable("STANDARD_TO_VOIGT is not the inverse dict: " + got)
+def ty(t):
+    k = t[0]
+    if k in ("zc", "add", "sub", "mul", "shl", "b2z", "sv", "mult", "longlen"):
+        return "Z"
+    if k in ("bc", "and", "or", "not", "zeq", "zlt", "zle", "seq", "meq", "beq", "zmem", "keymem", "valmem", "pred"):
+        return "B"
+    if k == "var":
+        return t[2]
+    if k in ("spair", "sort2", "sort2byz"):
+        return "S"
+    if k in ("mpair", "sort2by", "sort2lex"):
+        return "M"
+    if k in ("fst", "snd"):
+        return {"S": "Z", "M": "S"}[ty(t[1])]
+    raise AssertionError(t)
+
+
+def zc(n):
+    return ("zc", n)
+
+
+def var(uid, t):
+    return ("var", uid, t)
+
+
+def mk_pair(a, b):
+    """(fst x, snd x) = x"""
+    if a[0] == "fst" and b[0] == "snd" and a[1] == b[1]:
+        return a[1]
+    return ("spair" if ty(a) == "Z" else "mpair", a, b)
+
+
+def mk_fst(t):
+    return t[1] if t[0] in ("spair", "mpair") else ("fst", t)
+
+
+def mk_snd(t):
+    return t[2] if t[0] in ("spair", "mpair") else ("snd", t)
+
+
+def mk_not(b):
+    if b[0] == "bc":
+        return ("bc", not b[1])
+    return ("not", b)
+
+
+def mk_bool(op, parts):
+    """n-ary && / || with constant folding, flattening nested operators of the same kind"""
+    unit = op == "and"
+    out = []
+    for p in parts:
+        if p[0] == "bc":
+            if p[1] == unit:
+                continue
+            return ("bc", not unit)
+        if p[0] == op:
+            out.extend(p[1])
+        else:
+            out.append(p)
+    if not out:
+        return ("bc", unit)
+    return out[0] if len(out) == 1 else (op, out)
+
+
+def mk_arith(op, a, b):
+    if a[0] == "zc" and b[0] == "zc":
+        return zc({"add": a[1] + b[1], "sub": a[1] - b[1], "mul": a[1] * b[1]}[op])
+    return (op, a, b)
+
+
+def mk_cmp(op, a, b):
+    if a[0] == "zc" and b[0] == "zc":
+        return ("bc", {"zeq": a[1] == b[1], "zlt": a[1] < b[1], "zle": a[1] <= b[1]}[op])
+    return (op, a, b)
+
+
+def nonneg(t):
+    k = t[0]
+    if k == "zc":
+        return t[1] >= 0
+    if k == "b2z":
+        return True
+    if k in ("add", "mul", "shl"):
+        return nonneg(t[1]) and nonneg(t[2])
+    return False
+
+
+def fv(t, acc):
+    """free variable uids of a term"""
+    if t[0] == "var":
+        acc.add(t[1])
+        return acc
+    if t[0] in ("sort2by", "sort2byz"):
+        inner = fv(t[2], set())
+        inner.discard(t[1])
+        acc |= inner
+        fv(t[3], acc)
+        fv(t[4], acc)
+        return acc
+    for x in t[1:]:
+        if isinstance(x, tuple) and x and isinstance(x[0], str):
+            fv(x, acc)
+        elif isinstance(x, list):
+            for y in x:
+                if isinstance(y, tuple):
+                    fv(y, acc)
+    return acc
+
+
+def strip(s):
+    """drop one pair of outer parentheses if they enclose the whole string"""
+    if not (s.startswith("(") and s.endswith(")")):
+        return s
+    depth = 0
+    for n, ch in enumerate(s):
+        if ch == "(":
+            depth += 1
+        elif ch == ")":
+            depth -= 1
+            if depth == 0 and n != len(s) - 1:
+                return s
+    return s[1:-1]
+
+
+class Printer:
+    def __init__(self, names):
+        self.names = names          # uid -> printed name
+        self.need_ltb = False
+
+    def t(self, t):
+        k = t[0]
+        p = self.t
+        if k == "zc":
+            return z(t[1])
+        if k == "var":
+            return self.names[t[1]]
+        if k == "bc":
+            return "true" if t[1] else "false"
+        if k in ("add", "sub", "mul"):
+            sym = {"add": "+", "sub": "-", "mul": "*"}[k]
+            if k == "add":      # a + b + c is printed flat (left-nested sums only)
+                parts, cur = [], t
+                while cur[0] == "add":
+                    parts.append(cur[2])
+                    cur = cur[1]
+                parts.append(cur)
+                return "(" + " + ".join(p(x) for x in reversed(parts)) + ")"
+            return "(%s %s %s)" % (p(t[1]), sym, p(t[2]))
+        if k == "shl":
+            return "(Z.shiftl %s %s)" % (p(t[1]), p(t[2]))
+        if k == "b2z":
+            return "(b2z %s)" % p(t[1])
+        if k in ("and", "or"):
+            return "(" + (" && " if k == "and" else " || ").join(p(x) for x in t[1]) + ")"
+        if k == "not":
+            return "(negb %s)" % p(t[1])
+        if k in ("zeq", "zlt", "zle"):
+            return "(%s %s %s)" % (p(t[1]), {"zeq": "=?", "zlt": "<?", "zle": "<=?"}[k], p(t[2]))
+        if k == "seq":
+            return "(strain_eqb %s %s)" % (p(t[1]), p(t[2]))
+        if k == "meq":
+            return "(modkey_eqb %s %s)" % (p(t[1]), p(t[2]))
+        if k == "beq":
+            return "(Bool.eqb %s %s)" % (p(t[1]), p(t[2]))
+        if k == "zmem":
+            return "(zmem %s [%s])" % (p(t[1]), "; ".join(z(x) for x in t[2]))
+        if k == "keymem":
+            return "(zmem %s (map fst voigt_table))" % p(t[1])
+        if k == "valmem":
+            return "(smem %s (map snd voigt_table))" % p(t[1])
+        if k in ("spair", "mpair"):
+            return "(%s, %s)" % (strip(p(t[1])), strip(p(t[2])))
+        if k in ("fst", "snd"):
+            return "(%s %s)" % (k, p(t[1]))
+        if k == "sv":
+            return "(sv %s)" % p(t[1])
+        if k == "pred":
+            return "(%s %s)" % (t[1], p(t[2]))
+        if k == "mult":
+            return "(multiplicity %s)" % p(t[1])
+        if k == "sort2":
+            return "(sort2 %s %s)" % (p(t[1]), p(t[2]))
+        if k in ("sort2by", "sort2byz"):
+            uid, body = t[1], t[2]
+            if body[0] in ("sv",) and body[1] == ("var", uid, "S"):
+                key = "sv"                                           # eta
+            else:
+                bound = "e"
+                used = {self.names.get(u) for u in fv(body, set()) if u != uid}
+                while bound in used:
+                    bound += "'"
+                old = self.names.get(uid)
+                self.names[uid] = bound
+                key = "(fun %s => %s)" % (bound, strip(p(body)))
+                if old is None:
+                    del self.names[uid]
+                else:
+                    self.names[uid] = old
+            return "(sort2_by %s %s %s)" % (key, p(t[3]), p(t[4]))
+        if k == "sort2lex":
+            self.need_ltb = True
+            return "(sort2_lex %s %s)" % (p(t[1]), p(t[2]))
+        raise AssertionError(t)
+
+
+LEX_DEFS = """(* Python's order of two NamedTuples of ints, and sorted((a, b)) WITHOUT a key (stable) *)
+Definition strain_ltb (a b : strain) : bool := (fst a <? fst b) || ((fst a =? fst b) && (snd a <? snd b)).
+Definition sort2_lex (a b : strain) : strain * strain := if strain_ltb b a then (b, a) else (a, b).
+"""
+
+# ---------------------------------------------------------------------------------------------------
+# abstract Python values
+# ---------------------------------------------------------------------------------------------------
+
+
+class V:
+    fields = ()
+
+    def __init__(self, *a):
+        assert len(a) == len(self.fields), (self, a)
+        for n, x in zip(self.fields, a):
+            setattr(self, n, x)
+
+    def key(self):
+        def k(x):
+            if isinstance(x, V):
+                return x.key()
+            if isinstance(x, (list, tuple)):
+                return tuple(k(y) for y in x)
+            if isinstance(x, (ast.AST, dict)):
+                return id(x)
+            return x
+        return (type(self).__name__,) + tuple(k(getattr(self, n)) for n in self.fields)
+
+    def __repr__(self):
+        return "%s%r" % (type(self).__name__, tuple(getattr(self, n) for n in self.fields))
+
+
+class VInt(V):
+    fields = ("t",)
+
+
+class VBool(V):
+    fields = ("t",)
+
+
+class VNone(V):
+    pass
+
+
+class VStr(V):              # kind 'of_int': str(t);  'of_list': digit string whose ints are the list lv
+    fields = ("kind", "x")
+
+
+class VStrConst(V):
+    fields = ("s",)
+
+
+class VTuple(V):            # tuple / list of known length
+    fields = ("items",)
+
+
+class VList(V):             # list of ints of unknown length: ("listvar", name) | ("digits", zterm)
+    fields = ("lv",)
+
+
+class VLong(V):             # a sequence with more than MAXN elements
+    pass
+
+
+class VStrain(V):
+    fields = ("t",)
+
+
+class VMod(V):
+    fields = ("t",)
+
+
+class VPair(V):             # a 2-element list/tuple given by a pair-typed term (sorted(...), table entry)
+    fields = ("t",)
+
+
+class VSet(V):
+    fields = ("ints",)
+
+
+class VDict(V):             # 'V2S' | 'S2V'
+    fields = ("which",)
+
+
+class VDictView(V):         # ('V2S'|'S2V', 'keys'|'values')
+    fields = ("which", "view")
+
+
+class VDictMethod(V):
+    fields = ("which", "view")
+
+
+class VClass(V):
+    fields = ("name",)
+
+
+class VType(V):
+    fields = ("name",)
+
+
+class VBuiltin(V):
+    fields = ("name",)
+
+
+class VFunc(V):             # module-level function / unbound method
+    fields = ("fn",)
+
+
+class VMethod(V):           # bound method: first parameter = bound
+    fields = ("cname", "fn", "bound")
+
+
+class VLambda(V):
+    fields = ("node", "env")
+
+
+class VAttrGetter(V):
+    fields = ("name",)
+
+
+class VOpaque(V):           # bound name whose value is outside the grammar: any use fails closed
+    fields = ("what",)
+
+
+TYPE_NAMES = ("int", "str", "bool", "tuple", "list", "dict", "set", "float")
+BUILTINS = TYPE_NAMES + ("type", "isinstance", "len", "sorted", "map")
+MODELLED = ("StrainRepresentation", "ModulusRepresentation")
+INTERFACE = {("StrainRepresentation", "from_voigt"): ("strain_from_voigt", "S"),
+             ("StrainRepresentation", "from_standard"): ("strain_from_standard", "S"),
+             ("ModulusRepresentation", "from_voigt"): ("mod_from_voigt", "M"),
+             ("ModulusRepresentation", "from_standard"): ("mod_from_standard", "M")}
+PREDICATES = ("is_shear", "is_longitudinal", "is_off_diagonal")
+
+# ---------------------------------------------------------------------------------------------------
+# computation trees (exception monad with case splits)
+#   ("leaf", v) | ("fail",) | ("if", b, t1, t2) | ("bind", call, uid, ty, sub) |
+#   ("let", (uid1, uid2), (hint1, hint2), term, sub) | ("lmatch", lv, {n: (uids, sub)}, default, cut)
+#   call: ("call", name, [terms]) | ("tlookup", z) | ("rlookup", s)
+# ---------------------------------------------------------------------------------------------------
+FAIL = ("fail",)
+
+
+def leaf(v):
+    return ("leaf", v)
+
+
+def bind(tree, f):
+    k = tree[0]
+    if k == "leaf":
+        return f(tree[1])
+    if k == "fail":
+        return FAIL
+    if k == "if":
+        return ("if", tree[1], bind(tree[2], f), bind(tree[3], f))
+    if k == "bind":
+        return ("bind", tree[1], tree[2], tree[3], bind(tree[4], f))
+    if k == "let":
+        return ("let", tree[1], tree[2], tree[3], bind(tree[4], f))
+    if k == "lmatch":
+        return ("lmatch", tree[1], {n: (us, bind(sub, f)) for n, (us, sub) in tree[2].items()},
+                bind(tree[3], f), tree[4])
+    raise AssertionError(tree)
+
+
+def body_no_doc(stmts):
+    return [s for s in stmts if not (isinstance(s, ast.Expr) and isinstance(s.value, ast.Constant))]
+
+
+class Ev:
+    def __init__(self, mod):
+        self.nuid = 0
+        self.stack = []
+        self.order_hint = {}
+        self.cut = False
+        self.globals = {}
+        self.classes = {}
+        self.table = None
+        self.scan(mod)
+
+    def fresh(self):
+        self.nuid += 1
+        return "#%d" % self.nuid
+
+    # ---- module ---------------------------------------------------------------------------------
+    def bindg(self, name, v, node):
+        if name in self.globals:
+            bail(node, "module-level name %s is bound more than once" % name)
+        self.globals[name] = v
+
+    def scan(self, mod):
+        for n in mod.body:
+            if isinstance(n, ast.Expr) and isinstance(n.value, ast.Constant):
+                continue
+            if isinstance(n, (ast.Import, ast.ImportFrom)):
+                for a in n.names:
+                    nm = (a.asname or a.name).split(".")[0]
+                    if isinstance(n, ast.ImportFrom) and n.module == "operator" and a.name == "attrgetter" and n.level == 0:
+                        self.bindg(nm, VBuiltin("attrgetter"), n)
+                    else:
+                        self.bindg(nm, VOpaque("imported name " + nm), n)
+                continue
+            if isinstance(n, ast.AnnAssign) and isinstance(n.target, ast.Name) and n.value is not None:
+                self.module_assign(n.target.id, n.value, n)
+                continue
+            if isinstance(n, ast.Assign) and len(n.targets) == 1 and isinstance(n.targets[0], ast.Name):
+                self.module_assign(n.targets[0].id, n.value, n)
+                continue
+            if isinstance(n, ast.ClassDef):
+                self.scan_class(n)
+                continue
+            if isinstance(n, ast.FunctionDef):
+                if n.decorator_list:
+                    self.bindg(n.name, VOpaque("decorated function " + n.name), n)
+                else:
+                    self.bindg(n.name, VFunc(n), n)
+                continue
+            bail(n, "module-level statement")
+        for need in ("VOIGT_TO_STANDARD", "STANDARD_TO_VOIGT") + MODELLED:
+            if need not in self.globals:
+                raise Untranslatable("%s not found" % need)
+
+    def module_assign(self, name, value, node):
+        if name == "VOIGT_TO_STANDARD":
+            self.table = self.read_table(value)
+            self.bindg(name, VDict("V2S"), node)
+        elif name == "STANDARD_TO_VOIGT":
+            self.check_reverse(value)
+            self.bindg(name, VDict("S2V"), node)
+        elif isinstance(value, ast.Name) and isinstance(self.globals.get(value.id), (VClass, VFunc)):
+            self.bindg(name, self.globals[value.id], node)
+        else:
+            try:
+                t = self.ev(value, {})
+                v = t[1] if t[0] == "leaf" else VOpaque("module constant " + name)
+            except Untranslatable as e:
+                v = VOpaque("module constant %s (%s)" % (name, e))
+            self.bindg(name, v, node)
+
+    def read_table(self, d):
+        if not isinstance(d, ast.Dict):
+            bail(d, "VOIGT_TO_STANDARD must be a dict literal")
+        out = []
+        for k, v in zip(d.keys, d.values):
+            if not (isinstance(k, ast.Constant) and type(k.value) is int):
+                bail(k if k is not None else d, "key of VOIGT_TO_STANDARD")
+            if not (isinstance(v, ast.Tuple) and len(v.elts) == 2 and
+                    all(isinstance(e, ast.Constant) and type(e.value) is int for e in v.elts)):
+                bail(v, "value of VOIGT_TO_STANDARD")
+            out.append((k.value, (v.elts[0].value, v.elts[1].value)))
+        if len({k for k, _ in out}) != len(out) or len({v for _, v in out}) != len(out):
+            bail(d, "VOIGT_TO_STANDARD has a repeated key or value (first-match lookup would differ from dict semantics)")
+        return out
+
+    def check_reverse(self, val):
+        """STANDARD_TO_VOIGT = dict((v, k) for k, v in VOIGT_TO_STANDARD.items()) / dict([...]) / {v: k for ...}"""
+        if self.table is None:
+            bail(val, "STANDARD_TO_VOIGT before VOIGT_TO_STANDARD")
+        comp = None
+        if isinstance(val, ast.DictComp):
+            comp, key, value = val, val.key, val.value
+        elif isinstance(val, ast.Call) and isinstance(val.func, ast.Name) and val.func.id == "dict" \
+                and "dict" not in self.globals and len(val.args) == 1 and not val.keywords \
+                and isinstance(val.args[0], (ast.GeneratorExp, ast.ListComp)) \
+                and isinstance(val.args[0].elt, ast.Tuple) and len(val.args[0].elt.elts) == 2:
+            comp = val.args[0]
+            key, value = comp.elt.elts
+        if comp is None or len(comp.generators) != 1:
+            bail(val, "STANDARD_TO_VOIGT is not the inverse-dict construction")
+        g = comp.generators[0]
+        ok = (not g.ifs and not g.is_async and isinstance(g.target, ast.Tuple) and len(g.target.elts) == 2
+              and all(isinstance(x, ast.Name) for x in g.target.elts)
+              and isinstance(g.iter, ast.Call) and not g.iter.args and not g.iter.keywords
+              and isinstance(g.iter.func, ast.Attribute) and g.iter.func.attr == "items"
+              and isinstance(g.iter.func.value, ast.Name) and g.iter.func.value.id == "VOIGT_TO_STANDARD"
+              and isinstance(key, ast.Name) and isinstance(value, ast.Name))
+        if ok:
+            k, v = (x.id for x in g.target.elts)
+            ok = k != v and key.id == v and value.id == k
+        if not ok:
+            bail(val, "STANDARD_TO_VOIGT is not the inverse-dict construction")
+
+    def scan_class(self, c):
+        self.bindg(c.name, VClass(c.name), c)
+        if c.name not in MODELLED:
             return
-    raise Untranslatable("STANDARD_TO_VOIGT not found")
+        if c.decorator_list or c.keywords or len(c.bases) != 1 or ast.unparse(c.bases[0]) not in ("NamedTuple", "typing.NamedTuple"):
+            bail(c, "class %s must be a plain NamedTuple" % c.name)
+        fields, methods = [], {}
+        for n in c.body:
+            if isinstance(n, ast.Expr) and isinstance(n.value, ast.Constant) or isinstance(n, ast.Pass):
+                continue
+            if isinstance(n, ast.AnnAssign) and isinstance(n.target, ast.Name) and n.value is None:
+                fields.append(n.target.id)
+                continue
+            if isinstance(n, ast.FunctionDef):
+                if n.name in methods or n.name in fields:
+                    bail(n, "%s.%s is defined more than once" % (c.name, n.name))
+                decs = [ast.unparse(d) for d in n.decorator_list]
+                kind = {(): "method", ("classmethod",): "classmethod", ("property",): "property",
+                        ("staticmethod",): "static"}.get(tuple(decs), "opaque")
+                methods[n.name] = (n, kind)
+                continue
+            bail(n, "statement in the body of class %s" % c.name)
+        if fields != ["i", "j"]:
+            raise Untranslatable("%s fields %s" % (c.name, fields))
+        self.classes[c.name] = methods
 
+    def method(self, cname, name):
+        m = self.classes[cname].get(name)
+        if m is None:
+            raise Untranslatable("def %s.%s not found" % (cname, name))
+        return m
 
-def find_class(mod, name):
-    for n in mod.body:
-        if isinstance(n, ast.ClassDef) and n.name == name:
-            return n
-    raise Untranslatable("class %s not found" % name)
+    # ---- statements -------------------------------------------------------------------------------
+    def run(self, stmts, env, cont):
+        if not stmts:
+            return cont(env)
+        s, rest = stmts[0], stmts[1:]
 
+        def nxt(env2):
+            return self.run(rest, env2, cont)
+        if isinstance(s, ast.Expr) and isinstance(s.value, ast.Constant):
+            return nxt(env)
+        if isinstance(s, ast.Pass):
+            return nxt(env)
+        if isinstance(s, ast.Return):
+            return leaf(VNone()) if s.value is None else self.ev(s.value, env)
+        if isinstance(s, ast.Raise):
+            x = s.exc.func if isinstance(s.exc, ast.Call) else s.exc
+            if s.cause is None and isinstance(x, ast.Name) and x.id not in env and x.id not in self.globals \
+                    and (x.id.endswith("Error") or x.id.endswith("Exception")):
+                return FAIL
+            bail(s, "raise of something that is not a builtin exception")
+        if isinstance(s, ast.If):
+            def branch(v):
+                b = self.truth(v, s.test)
+                if b[0] == "bc":
+                    return self.run(s.body if b[1] else s.orelse, env, nxt)
+                return ("if", b, self.run(s.body, env, nxt), self.run(s.orelse, env, nxt))
+            return bind(self.ev(s.test, env), branch)
+        if isinstance(s, ast.Assert):
+            def check(v):
+                b = self.truth(v, s.test)
+                if b[0] == "bc":
+                    return nxt(env) if b[1] else FAIL
+                return ("if", b, nxt(env), FAIL)
+            return bind(self.ev(s.test, env), check)
+        if isinstance(s, (ast.Assign, ast.AnnAssign)):
+            if isinstance(s, ast.AnnAssign):
+                if s.value is None:
+                    return nxt(env)
+                tgt = s.target
+            else:
+                if len(s.targets) != 1:
+                    bail(s, "chained assignment")
+                tgt = s.targets[0]
+            if isinstance(tgt, ast.Name):
+                return bind(self.ev(s.value, env), lambda v: nxt(dict(env, **{tgt.id: v})))
+            if isinstance(tgt, (ast.Tuple, ast.List)) and all(isinstance(x, ast.Name) for x in tgt.elts):
+                names = [x.id for x in tgt.elts]
+                if len(set(names)) != len(names):
+                    bail(s, "repeated target")
 
-def find_def(cls, name):
-    for n in cls.body:
-        if isinstance(n, ast.FunctionDef) and n.name == name:
-            return n
-    raise Untranslatable("def %s.%s not found" % (cls.name, name))
+                def destructure(v):
+                    if isinstance(v, VPair) and v.t[0] in ("sort2", "sort2by", "sort2byz", "sort2lex") and len(names) == 2:
+                        u1, u2 = self.fresh(), self.fresh()
+                        et = "Z" if ty(v.t) == "S" else "S"
+                        wrap = VInt if et == "Z" else VStrain
+                        e2 = dict(env)
+                        e2[names[0]], e2[names[1]] = wrap(var(u1, et)), wrap(var(u2, et))
+                        return ("let", (u1, u2), tuple(names), v.t, nxt(e2))
 
+                    def got(items):
+                        if isinstance(items, VLong) or len(items) != len(names):
+                            return FAIL                     # ValueError: too many / not enough values to unpack
+                        return nxt(dict(env, **dict(zip(names, items))))
+                    return bind(self.items_of(v, s), got)
+                return bind(self.ev(s.value, env), destructure)
+            bail(s, "assignment target")
+        bail(s, "statement")
 
-# ---- expression translation for the predicates -------------------------------------
-# types: 'Z', 'S' (strain), 'B'
+    def truth(self, v, node):
+        if isinstance(v, VBool):
+            return v.t
+        if isinstance(v, VNone):
+            return ("bc", False)
+        if isinstance(v, VInt):
+            return mk_not(mk_cmp("zeq", v.t, zc(0)))
+        if isinstance(v, (VStrain, VMod, VPair)):
+            return ("bc", True)
+        if isinstance(v, VTuple):
+            return ("bc", len(v.items) > 0)
+        if isinstance(v, VLong):
+            return ("bc", True)
+        if isinstance(v, VStr) and v.kind == "of_int":
+            return ("bc", True)
+        bail(node, "truth value of %r" % (v,))
 
-def expr(e, env):
-    """returns (coq_text, type)"""
-    if isinstance(e, ast.Constant) and type(e.value) is int:
-        return z(e.value), "Z"
-    if isinstance(e, ast.Name) and e.id in env:
-        return env[e.id]
-    if isinstance(e, ast.Attribute):
-        src = ast.unparse(e)
-        m = {
-            "self.i": ("(fst m)", "S"), "self.j": ("(snd m)", "S"),
-            "self.i.voigt": ("(sv (fst m))", "Z"), "self.j.voigt": ("(sv (snd m))", "Z"),
-            "self.i.v": ("(sv (fst m))", "Z"), "self.j.v": ("(sv (snd m))", "Z"),
-            "self.i.i": ("(fst (fst m))", "Z"), "self.i.j": ("(snd (fst m))", "Z"),
-            "self.j.i": ("(fst (snd m))", "Z"), "self.j.j": ("(snd (snd m))", "Z"),
-            "self.is_shear": ("(is_shear m)", "B"),
-            "self.is_longitudinal": ("(is_longitudinal m)", "B"),
-            "self.is_off_diagonal": ("(is_off_diagonal m)", "B"),
-        }
-        if src in m and env.get("__self__"):
-            return m[src]
-        bail(e, src)
-    if isinstance(e, ast.BoolOp):
-        parts = [expr(v, env) for v in e.values]
-        if any(t != "B" for _, t in parts):
-            bail(e, "non-boolean operand")
-        op = " && " if isinstance(e.op, ast.And) else " || "
-        return "(" + op.join(p for p, _ in parts) + ")", "B"
-    if isinstance(e, ast.UnaryOp) and isinstance(e.op, ast.Not):
-        p, t = expr(e.operand, env)
-        if t != "B":
-            bail(e)
-        return "(negb %s)" % p, "B"
-    if isinstance(e, ast.Compare) and len(e.ops) == 1:
-        a, ta = expr(e.left, env)
-        op = e.ops[0]
-        r = e.comparators[0]
+    # ---- sequences ----------------------------------------------------------------------------------
+    def items_of(self, v, node):
+        """tree of: the list of element values, or VLong"""
+        if isinstance(v, VTuple):
+            return leaf(list(v.items))
+        if isinstance(v, VPair):
+            w = VInt if ty(v.t) == "S" else VStrain
+            return leaf([w(mk_fst(v.t)), w(mk_snd(v.t))])
+        if isinstance(v, VStrain):
+            return leaf([VInt(mk_fst(v.t)), VInt(mk_snd(v.t))])
+        if isinstance(v, VMod):
+            return leaf([VStrain(mk_fst(v.t)), VStrain(mk_snd(v.t))])
+        if isinstance(v, VLong):
+            return leaf(v)
+        if isinstance(v, VList):
+            br = {}
+            for n in range(MAXN + 1):
+                if v.lv[0] == "digits" and n == 0:
+                    br[n] = ([], FAIL)                                  # digits never returns []
+                elif v.lv[0] == "digits" and n == 1:
+                    br[n] = ([None], leaf([VInt(v.lv[1])]))             # digits z = [a]  ->  a = z
+                else:
+                    us = [self.fresh() for _ in range(n)]
+                    br[n] = (us, leaf([VInt(var(u, "Z")) for u in us]))
+            return ("lmatch", v.lv, br, leaf(VLong()), False)
+        bail(node, "%r is not a sequence the translator can unpack" % (v,))
+
+    def ev_seq(self, exprs, env):
+        """evaluate left to right; *e splices; result: tree of list of values (VLong only as last element)"""
+        def go(idx, acc):
+            if idx == len(exprs):
+                return leaf(acc)
+            e = exprs[idx]
+            if isinstance(e, ast.Starred):
+                def splice(items):
+                    if isinstance(items, VLong):
+                        if idx != len(exprs) - 1:
+                            bail(e, "unbounded *splice that is not the last argument")
+                        return leaf(acc + [items])
+                    return go(idx + 1, acc + items)
+                return bind(self.ev(e.value, env), lambda v: bind(self.items_of(v, e), splice))
+            return bind(self.ev(e, env), lambda v: go(idx + 1, acc + [v]))
+        return go(0, [])
+
+    # ---- expressions --------------------------------------------------------------------------------
+    def lookup(self, name, env, node):
+        if name in env:
+            return env[name]
+        if name in self.globals:
+            return self.globals[name]
+        if name in BUILTINS:
+            return VBuiltin(name)
+        bail(node, "unknown name %s" % name)
+
+    def ev(self, e, env):
+        if isinstance(e, ast.Constant):
+            c = e.value
+            if c is None:
+                return leaf(VNone())
+            if type(c) is bool:
+                return leaf(VBool(("bc", c)))
+            if type(c) is int:
+                return leaf(VInt(zc(c)))
+            if type(c) is str:
+                return leaf(VStrConst(c))
+            bail(e, "constant")
+        if isinstance(e, ast.Name):
+            return leaf(self.lookup(e.id, env, e))
+        if isinstance(e, ast.Attribute):
+            return bind(self.ev(e.value, env), lambda v: self.getattr_v(v, e.attr, e))
+        if isinstance(e, ast.Call):
+            if any(k.arg is None for k in e.keywords):
+                bail(e, "**kwargs")
+            return bind(self.ev(e.func, env), lambda f: bind(self.ev_seq(e.args, env), lambda args: bind(
+                self.ev_seq([k.value for k in e.keywords], env),
+                lambda kv: self.apply(f, args, dict(zip([k.arg for k in e.keywords], kv)), e))))
+        if isinstance(e, ast.Compare):
+            if len(e.ops) > 1:
+                for c in e.comparators[1:]:
+                    if self.ev(c, env)[0] != "leaf":
+                        bail(e, "chained comparison with an operand that can raise")
+
+            def done(vs):
+                parts = [self.cmp(op, vs[n], vs[n + 1], e) for n, op in enumerate(e.ops)]
+                r = mk_bool("and", parts)
+                if len(e.ops) == 1 and isinstance(e.ops[0], ast.Eq) and r == ("bc", True) and isinstance(e.left, ast.Call) \
+                        and isinstance(e.left.func, ast.Name) and e.left.func.id == "len" and isinstance(vs[1], VInt) \
+                        and vs[1].t[0] == "zc":
+                    self.order_hint.setdefault(vs[1].t[1], e.lineno)
+                return leaf(VBool(r))
+            return bind(self.ev_seq([e.left] + e.comparators, env), done)
+        if isinstance(e, ast.BoolOp):
+            return self.ev_boolop(e, env)
+        if isinstance(e, ast.UnaryOp):
+            if isinstance(e.op, ast.Not):
+                return bind(self.ev(e.operand, env), lambda v: leaf(VBool(mk_not(self.truth(v, e)))))
+            if isinstance(e.op, ast.USub):
+                return bind(self.ev(e.operand, env), lambda v: leaf(VInt(mk_arith("sub", zc(0), self.as_z(v, e)))))
+            bail(e, "unary operator")
+        if isinstance(e, ast.BinOp):
+            return bind(self.ev(e.left, env), lambda a: bind(self.ev(e.right, env), lambda b: leaf(self.binop(e, a, b))))
+        if isinstance(e, ast.IfExp):
+            def pick(v):
+                b = self.truth(v, e.test)
+                if b[0] == "bc":
+                    return self.ev(e.body if b[1] else e.orelse, env)
+                x, y = self.ev(e.body, env), self.ev(e.orelse, env)
+                return ("if", b, x, y)
+            return bind(self.ev(e.test, env), pick)
+        if isinstance(e, (ast.Tuple, ast.List)):
+            def mk(items):
+                if items and isinstance(items[-1], VLong):
+                    return leaf(VLong())
+                return leaf(VTuple(items))
+            return bind(self.ev_seq(e.elts, env), mk)
+        if isinstance(e, ast.Set):
+            if all(isinstance(x, ast.Constant) and type(x.value) is int for x in e.elts):
+                return leaf(VSet([x.value for x in e.elts]))
+            bail(e, "set display of something other than integer literals")
+        if isinstance(e, ast.Subscript):
+            return bind(self.ev(e.value, env), lambda v: bind(self.ev(e.slice, env), lambda k: self.subscript(v, k, e)))
+        if isinstance(e, (ast.GeneratorExp, ast.ListComp)):
+            return self.ev_comp(e, env)
+        if isinstance(e, ast.Lambda):
+            return leaf(VLambda(e, env))
+        bail(e, "expression")
+
+    def as_z(self, v, node):
+        if isinstance(v, VInt):
+            return v.t
+        if isinstance(v, VBool):
+            return zc(int(v.t[1])) if v.t[0] == "bc" else ("b2z", v.t)
+        bail(node, "%r used as an integer" % (v,))
+
+    def binop(self, e, a, b):
+        if isinstance(e.op, (ast.Add, ast.Sub, ast.Mult)):
+            op = {ast.Add: "add", ast.Sub: "sub", ast.Mult: "mul"}[type(e.op)]
+            return VInt(mk_arith(op, self.as_z(a, e), self.as_z(b, e)))
+        if isinstance(e.op, ast.LShift):
+            x, y = self.as_z(a, e), self.as_z(b, e)
+            if not nonneg(y):
+                bail(e, "shift by an amount that is not provably non-negative")
+            return VInt(("shl", x, y))
+        bail(e, "binary operator")
+
+    def ev_boolop(self, e, env):
+        is_and = isinstance(e.op, ast.And)
+        op = "and" if is_and else "or"
+        n = len(e.values)
+
+        def go(idx):
+            if idx == n - 1:
+                return self.ev(e.values[idx], env)
+            return bind(self.ev(e.values[idx], env), lambda v: step(v, idx))
+
+        def step(v, idx):
+            tb = self.truth(v, e.values[idx])
+            if tb[0] == "bc":
+                return go(idx + 1) if tb[1] == is_and else leaf(v)
+            if not isinstance(v, VBool):
+                bail(e.values[idx], "non-boolean operand of and/or")
+            r = go(idx + 1)
+            if r[0] == "leaf":
+                if not isinstance(r[1], VBool):
+                    bail(e, "non-boolean operand of and/or")
+                return leaf(VBool(mk_bool(op, [tb, r[1].t])))
+            r = bind(r, lambda w: leaf(w) if isinstance(w, VBool) else bail(e, "non-boolean operand of and/or"))
+            if is_and:
+                return ("if", tb, r, leaf(VBool(("bc", False))))
+            return ("if", tb, leaf(VBool(("bc", True))), r)
+        return go(0)
+
+    @staticmethod
+    def typename(v):
+        if isinstance(v, (VType, VClass)):
+            return v.name
+        if isinstance(v, VBuiltin) and v.name in TYPE_NAMES:
+            return v.name
+        return None
+
+    def strain_term(self, v, node):
+        if isinstance(v, (VStrain, VPair)) and ty(v.t) == "S":
+            return v.t
+        if isinstance(v, VTuple) and len(v.items) == 2 and all(isinstance(x, VInt) for x in v.items):
+            return mk_pair(v.items[0].t, v.items[1].t)
+        bail(node, "%r is not a pair of integers" % (v,))
+
+    def cmp(self, op, a, b, node):
+        neg = isinstance(op, (ast.IsNot, ast.NotEq, ast.NotIn))
+
+        def out(t):
+            return mk_not(t) if neg else t
+        if isinstance(op, (ast.Is, ast.IsNot)):
+            if isinstance(a, VNone) or isinstance(b, VNone):
+                if isinstance(a, (VOpaque,)) or isinstance(b, (VOpaque,)):
+                    bail(node, "identity test on an untranslated value")
+                return out(("bc", isinstance(a, VNone) and isinstance(b, VNone)))
+            if self.typename(a) and self.typename(b):
+                return out(("bc", self.typename(a) == self.typename(b)))
+            bail(node, "identity test")
+        if isinstance(op, (ast.Eq, ast.NotEq)):
+            if isinstance(a, VNone) or isinstance(b, VNone):
+                if isinstance(a, VOpaque) or isinstance(b, VOpaque):
+                    bail(node, "comparison with an untranslated value")
+                return out(("bc", isinstance(a, VNone) and isinstance(b, VNone)))
+            if self.typename(a) and self.typename(b):
+                return out(("bc", self.typename(a) == self.typename(b)))
+            if isinstance(a, VInt) and isinstance(b, VInt):
+                for x, y in ((a, b), (b, a)):
+                    if x.t[0] == "longlen":
+                        if y.t[0] == "zc" and y.t[1] <= MAXN:
+                            return out(("bc", False))
+                        bail(node, "length of an unbounded argument list compared with something above %d" % MAXN)
+                return out(mk_cmp("zeq", a.t, b.t))
+            if isinstance(a, VBool) and isinstance(b, VBool):
+                return out(("beq", a.t, b.t))
+            if isinstance(a, VStrain) and isinstance(b, VStrain):
+                return out(("seq", a.t, b.t))
+            if isinstance(a, VMod) and isinstance(b, VMod):
+                return out(("meq", a.t, b.t))
+            bail(node, "== between %r and %r" % (a, b))
+        if isinstance(op, (ast.Lt, ast.LtE, ast.Gt, ast.GtE)):
+            if not (isinstance(a, VInt) and isinstance(b, VInt)) or "longlen" in (a.t[0], b.t[0]):
+                bail(node, "ordering of non-integers")
+            if isinstance(op, ast.Lt):
+                return mk_cmp("zlt", a.t, b.t)
+            if isinstance(op, ast.LtE):
+                return mk_cmp("zle", a.t, b.t)
+            if isinstance(op, ast.Gt):
+                return mk_cmp("zlt", b.t, a.t)
+            return mk_cmp("zle", b.t, a.t)
         if isinstance(op, (ast.In, ast.NotIn)):
-            if isinstance(r, ast.Set) and ta == "Z" and all(
-                    isinstance(x, ast.Constant) and type(x.value) is int for x in r.elts):
-                txt = "(zmem %s [%s])" % (a, "; ".join(z(x.value) for x in r.elts))
-                return (txt if isinstance(op, ast.In) else "(negb %s)" % txt), "B"
-            bail(e, "membership")
-        b, tb = expr(r, env)
-        if ta != tb:
-            bail(e, "comparison of different types")
-        eq = {"Z": "(%s =? %s)", "S": "(strain_eqb %s %s)", "B": "(Bool.eqb %s %s)"}[ta] % (a, b)
-        if isinstance(op, ast.Eq):
-            return eq, "B"
-        if isinstance(op, ast.NotEq):
-            return "(negb %s)" % eq, "B"
-        bail(e, "comparison operator")
-    if isinstance(e, ast.BinOp) and isinstance(e.op, ast.LShift):
-        a, ta = expr(e.left, env)
-        b, tb = expr(e.right, env)
-        if ta == "B":
-            a = "(b2z %s)" % a
-        if tb == "B":
-            b = "(b2z %s)" % b
-        return "(Z.shiftl %s %s)" % (a, b), "Z"
-    bail(e)
+            if isinstance(b, VSet) or (isinstance(b, VTuple) and b.items and all(
+                    isinstance(x, VInt) and x.t[0] == "zc" for x in b.items)):
+                ints = b.ints if isinstance(b, VSet) else [x.t[1] for x in b.items]
+                if not isinstance(a, VInt):
+                    bail(node, "membership of a non-integer in a set of integers")
+                return out(("zmem", a.t, list(ints)))
+            if isinstance(b, (VDict, VDictView)):
+                side = "keys" if isinstance(b, VDict) else b.view
+                ints_side = (b.which, side) in (("V2S", "keys"), ("S2V", "values"))
+                if ints_side:
+                    if not isinstance(a, VInt):
+                        bail(node, "membership of a non-integer among the Voigt indices")
+                    return out(("keymem", a.t))
+                return out(("valmem", self.strain_term(a, node)))
+            bail(node, "membership in %r" % (b,))
+        bail(node, "comparison operator")
+
+    def subscript(self, v, k, node):
+        if isinstance(v, VDict):
+            u = self.fresh()
+            if v.which == "V2S":
+                if not isinstance(k, VInt):
+                    bail(node, "VOIGT_TO_STANDARD[non-integer]")
+                return ("bind", ("tlookup", k.t), u, "S", leaf(VPair(var(u, "S"))))
+            return ("bind", ("rlookup", self.strain_term(k, node)), u, "Z", leaf(VInt(var(u, "Z"))))
+        if isinstance(k, VInt) and k.t[0] == "zc" and not isinstance(v, (VLong, VList)):
+            def pick(items):
+                n = k.t[1]
+                if not -len(items) <= n < len(items):
+                    return FAIL                              # IndexError
+                return leaf(items[n])
+            return bind(self.items_of(v, node), pick)
+        bail(node, "subscript")
+
+    def ev_comp(self, e, env):
+        """(int(k) for k in s) / [int(k) for k in s] / (k for k in seq)"""
+        if len(e.generators) != 1:
+            bail(e, "comprehension")
+        g = e.generators[0]
+        if g.ifs or g.is_async or not isinstance(g.target, ast.Name):
+            bail(e, "comprehension")
+        x = g.target.id
+        if isinstance(e.elt, ast.Name) and e.elt.id == x:
+            conv = None
+        elif isinstance(e.elt, ast.Call) and isinstance(e.elt.func, ast.Name) and e.elt.func.id != x \
+                and not e.elt.keywords and len(e.elt.args) == 1 and isinstance(e.elt.args[0], ast.Name) \
+                and e.elt.args[0].id == x:
+            conv = self.lookup(e.elt.func.id, env, e.elt)
+        else:
+            bail(e, "comprehension element")
+        return bind(self.ev(g.iter, env), lambda s: self.map_conv(conv, s, e))
+
+    def map_conv(self, conv, s, node):
+        if conv is None:
+            if isinstance(s, (VTuple, VList, VLong)):
+                return leaf(s)
+            return bind(self.items_of(s, node), lambda items: leaf(VTuple(items)))
+        if isinstance(conv, VBuiltin) and conv.name == "int":
+            if isinstance(s, VStr):
+                return leaf(VList(("digits", s.x)) if s.kind == "of_int" else VList(s.x))
+            if isinstance(s, (VList, VLong)):
+                return leaf(s)
+            if isinstance(s, VTuple) and all(isinstance(x, (VInt, VBool)) for x in s.items):
+                return leaf(VTuple([VInt(self.as_z(x, node)) for x in s.items]))
+        bail(node, "only int may be mapped over a digit string")
+
+    # ---- attributes ---------------------------------------------------------------------------------
+    def getattr_v(self, v, name, node):
+        if isinstance(v, VClass) and v.name in MODELLED:
+            fn, kind = self.method(v.name, name)
+            if kind == "classmethod":
+                return leaf(VMethod(v.name, fn, v))
+            if kind in ("static", "method"):
+                return leaf(VFunc(fn))
+            bail(node, "%s.%s on the class" % (v.name, name))
+        if isinstance(v, (VStrain, VMod)):
+            cname = MODELLED[0] if isinstance(v, VStrain) else MODELLED[1]
+            if name in ("i", "j"):
+                part = mk_fst(v.t) if name == "i" else mk_snd(v.t)
+                return leaf(VInt(part) if isinstance(v, VStrain) else VStrain(part))
+            fn, kind = self.method(cname, name)
+            if kind == "property":
+                if isinstance(v, VStrain) and name == "voigt":
+                    return leaf(VInt(("sv", v.t)))
+                if isinstance(v, VMod) and name in PREDICATES:
+                    return leaf(VBool(("pred", name, v.t)))
+                if isinstance(v, VMod) and name == "multiplicity":
+                    return leaf(VInt(("mult", v.t)))
+                return self.call_inline(fn, [v], {}, node)
+            if kind == "method":
+                return leaf(VMethod(cname, fn, v))
+            if kind == "classmethod":
+                return leaf(VMethod(cname, fn, VClass(cname)))
+            if kind == "static":
+                return leaf(VFunc(fn))
+            bail(node, "%s.%s has a decorator outside the grammar" % (cname, name))
+        if isinstance(v, VDict) and name in ("keys", "values"):
+            return leaf(VDictMethod(v.which, name))
+        bail(node, "attribute %s of %r" % (name, v))
+
+    # ---- calls ----------------------------------------------------------------------------------------
+    def apply(self, f, args, kw, node):
+        long_ = bool(args) and isinstance(args[-1], VLong)
+        if isinstance(f, VMethod):
+            key = (f.cname, f.fn.name)
+            if key in INTERFACE and isinstance(f.bound, VClass):
+                name, rty = INTERFACE[key]
+                a = f.fn.args
+                if kw or long_ or a.vararg or a.kwonlyargs or a.kwarg or a.defaults or len(args) != len(a.args) - 1:
+                    bail(node, "call of %s.%s that is not plain positional" % key)
+                if not all(isinstance(x, VInt) for x in args):
+                    bail(node, "%s.%s called on a non-integer %r" % (key + (args,)))
+                u = self.fresh()
+                w = VStrain if rty == "S" else VMod
+                return ("bind", ("call", name, [x.t for x in args]), u, rty, leaf(w(var(u, rty))))
+            return self.call_inline(f.fn, [f.bound] + args, kw, node)
+        if isinstance(f, VFunc):
+            return self.call_inline(f.fn, args, kw, node)
+        if isinstance(f, VLambda):
+            return self.call_inline(f.node, args, kw, node, f.env)
+        if isinstance(f, VDictMethod) and not args and not kw:
+            return leaf(VDictView(f.which, f.view))
+        if isinstance(f, VAttrGetter) and len(args) == 1 and not kw and not long_:
+            return self.getattr_v(args[0], f.name, node)
+        if isinstance(f, VClass) and f.name in MODELLED:
+            if kw:
+                bail(node, "keyword arguments of a constructor")
+            if long_ or len(args) != 2:
+                return FAIL                                    # TypeError: wrong number of fields
+            a, b = args
+            if f.name == MODELLED[0] and isinstance(a, VInt) and isinstance(b, VInt):
+                return leaf(VStrain(mk_pair(a.t, b.t)))
+            if f.name == MODELLED[1] and isinstance(a, VStrain) and isinstance(b, VStrain):
+                return leaf(VMod(mk_pair(a.t, b.t)))
+            bail(node, "%s(%r, %r)" % (f.name, a, b))
+        if isinstance(f, VBuiltin):
+            return self.builtin(f.name, args, kw, node, long_)
+        bail(node, "call of %r" % (f,))
+
+    def builtin(self, name, args, kw, node, long_):
+        if name == "sorted":
+            return self.sorted_(args, kw, node)
+        if kw:
+            bail(node, "keyword arguments of %s" % name)
+        if name == "len" and len(args) == 1:
+            if long_:
+                return leaf(VInt(("longlen",)))
+            if isinstance(args[0], VList):
+                return bind(self.items_of(args[0], node), lambda items: leaf(
+                    VInt(("longlen",)) if isinstance(items, VLong) else VInt(zc(len(items)))))
+            if isinstance(args[0], (VTuple, VPair, VStrain, VMod)):
+                return bind(self.items_of(args[0], node), lambda items: leaf(VInt(zc(len(items)))))
+            bail(node, "len of %r" % (args[0],))
+        if long_:
+            bail(node, "unbounded argument list passed to %s" % name)
+        if name == "type" and len(args) == 1:
+            v = args[0]
+            tn = {VInt: "int", VBool: "bool", VStr: "str", VStrConst: "str", VNone: "NoneType", VTuple: None,
+                  VStrain: MODELLED[0], VMod: MODELLED[1]}.get(type(v))
+            if tn is None:
+                bail(node, "type of %r" % (v,))
+            return leaf(VType(tn))
+        if name == "isinstance" and len(args) == 2:
+            v, t = args
+            ts = [self.typename(x) for x in (t.items if isinstance(t, VTuple) else [t])]
+            if not all(x in ("int", "str", "bool") for x in ts):
+                bail(node, "isinstance against %r" % (t,))
+            mine = {VInt: ("int",), VBool: ("bool", "int"), VStr: ("str",), VStrConst: ("str",), VNone: ()}.get(type(v))
+            if mine is None:
+                bail(node, "isinstance of %r" % (v,))
+            return leaf(VBool(("bc", any(x in mine for x in ts))))
+        if name == "int" and len(args) == 1:
+            v = args[0]
+            if isinstance(v, (VInt, VBool)):
+                return leaf(VInt(self.as_z(v, node)))
+            if isinstance(v, VStr) and v.kind == "of_int":
+                return leaf(VInt(v.x))
+            bail(node, "int of %r" % (v,))
+        if name == "bool" and len(args) == 1:
+            return leaf(VBool(self.truth(args[0], node)))
+        if name == "str" and len(args) == 1 and isinstance(args[0], VInt) and args[0].t[0] != "longlen":
+            return leaf(VStr("of_int", args[0].t))
+        if name in ("tuple", "list") and len(args) == 1:
+            if isinstance(args[0], (VList, VLong)):
+                return leaf(args[0])
+            return bind(self.items_of(args[0], node), lambda items: leaf(VTuple(items)))
+        if name == "map" and len(args) == 2:
+            return self.map_conv(args[0], args[1], node)
+        if name == "attrgetter" and len(args) == 1 and isinstance(args[0], VStrConst) and "." not in args[0].s:
+            return leaf(VAttrGetter(args[0].s))
+        bail(node, "call of builtin %s" % name)
+
+    def sorted_(self, args, kw, node):
+        if len(args) != 1 or set(kw) - {"key"}:
+            bail(node, "sorted with anything but one sequence and an optional key")
+        key = kw.get("key")
+        if isinstance(key, VNone):
+            key = None
+
+        def go(items):
+            if isinstance(items, VLong) or len(items) != 2:
+                bail(node, "sorted of something that is not a pair")
+            a, b = items
+            if isinstance(a, VInt) and isinstance(b, VInt):
+                et, wrap = "Z", VInt
+            elif isinstance(a, VStrain) and isinstance(b, VStrain):
+                et, wrap = "S", VStrain
+            else:
+                bail(node, "sorted of %r and %r" % (a, b))
+            if key is None:
+                return leaf(VPair(("sort2", a.t, b.t) if et == "Z" else ("sort2lex", a.t, b.t)))
+            if not isinstance(key, (VLambda, VAttrGetter, VFunc)):
+                bail(node, "sort key %r is outside the grammar" % (key,))
+            u = self.fresh()
+            kt = self.apply(key, [wrap(var(u, et))], {}, node)
+            if kt[0] != "leaf" or not isinstance(kt[1], (VInt, VBool)):
+                bail(node, "sort key must be a total integer-valued function of the element")
+            return leaf(VPair(("sort2by" if et == "S" else "sort2byz", u, self.as_z(kt[1], node), a.t, b.t)))
+        return bind(self.items_of(args[0], node), go)
+
+    def call_inline(self, fn, args, kw, node, closure=None):
+        a = fn.args
+        if a.kwonlyargs or a.kwarg:
+            bail(fn, "keyword-only / ** parameters")
+        params = [x.arg for x in a.posonlyargs + a.args]
+        env = dict(closure or {})
+        long_ = bool(args) and isinstance(args[-1], VLong)
+        if long_:
+            if len(params) > MAXN:
+                bail(fn, "more than %d parameters" % MAXN)
+            if not a.vararg:
+                return FAIL                                    # TypeError: too many positional arguments
+            if len(args) - 1 < len(params) or kw:
+                bail(node, "unbounded argument list feeding named parameters")
+        pos = args[:-1] if long_ else args
+        if len(pos) > len(params) and not a.vararg:
+            return FAIL                                        # TypeError
+        for p, v in zip(params, pos):
+            env[p] = v
+        bound = set(params[:len(pos)])
+        for k, v in kw.items():
+            if k not in params or k in bound:
+                return FAIL                                    # TypeError
+            env[k] = v
+            bound.add(k)
+        ndef = len(a.defaults)
+        for n, p in enumerate(params):
+            if p in bound:
+                continue
+            d = n - (len(params) - ndef)
+            if d < 0:
+                return FAIL                                    # TypeError: missing argument
+            t = self.ev(a.defaults[d], {})
+            if t[0] != "leaf":
+                bail(a.defaults[d], "default value")
+            env[p] = t[1]
+        if a.vararg:
+            env[a.vararg.arg] = VLong() if long_ else VTuple(list(pos[len(params):]))
+        key = (id(fn),) + tuple(env[p].key() for p in params) + ((env[a.vararg.arg].key(),) if a.vararg else ())
+        if key in self.stack:
+            self.cut = True
+            return FAIL                   # the same call with the same arguments: never returns (RecursionError)
+        if len(self.stack) > 30:
+            bail(node, "inlining deeper than 30 calls")
+        self.stack.append(key)
+        try:
+            if isinstance(fn, ast.Lambda):
+                return self.ev(fn.body, env)
+            return self.run(fn.body, env, lambda _e: leaf(VNone()))
+        finally:
+            self.stack.pop()
 
 
-def single_return(fn):
-    body = [s for s in fn.body if not (isinstance(s, ast.Expr) and isinstance(s.value, ast.Constant))]
-    if len(body) != 1 or not isinstance(body[0], ast.Return):
-        bail(fn, "expected a single return")
-    return body[0].value
+# ---------------------------------------------------------------------------------------------------
+# simplification (each rule is an equation of the option monad / of the lookup functions)
+# ---------------------------------------------------------------------------------------------------
+
+def tkey(t):
+    k = t[0]
+    if k == "leaf":
+        v = t[1]
+        return ("leaf", v.key() if isinstance(v, V) else tuple(x.key() for x in v))
+    if k == "fail":
+        return t
+    if k == "if":
+        return ("if", t[1], tkey(t[2]), tkey(t[3]))
+    if k == "bind":
+        return ("bind", repr(t[1]), t[2], t[3], tkey(t[4]))
+    if k == "let":
+        return ("let", t[1], t[3], tkey(t[4]))
+    return ("lmatch", t[1], tuple((n, tuple(us), tkey(s)) for n, (us, s) in sorted(t[2].items())), tkey(t[3]))
 
 
-# ---- constructors: template-checked statement forms ----------------------------------
-
-def norm(fn):
-    body = [s for s in fn.body if not (isinstance(s, ast.Expr) and isinstance(s.value, ast.Constant))]
-    return [ast.unparse(s) for s in body]
-
-
-S_FROM_VOIGT = [
-    "if i not in VOIGT_TO_STANDARD.keys():\n    raise RuntimeError(f'Invalid voigt index {i}')",
-    "return cls(*VOIGT_TO_STANDARD[i])",
-]
-S_FROM_STANDARD = [
-    "i, j = sorted((i, j))",
-    "if (i, j) not in VOIGT_TO_STANDARD.values():\n    raise RuntimeError(f'Invalid standard index {i}{j}')",
-    "return cls(i, j)",
-]
-M_FROM_VOIGT = [
-    "return cls(*sorted((StrainRepresentation.from_voigt(i), StrainRepresentation.from_voigt(j)), key=lambda e: e.voigt))",
-]
-M_FROM_STANDARD = [
-    "return cls(*sorted((StrainRepresentation.from_standard(i, j), StrainRepresentation.from_standard(k, l)), key=lambda e: e.voigt))",
-]
-S_VOIGT = ["return STANDARD_TO_VOIGT[self]"]
-M_VOIGT = ["return (self.i.voigt, self.j.voigt)"]
-M_STANDARD = ["return (*self.i, *self.j)"]
-S_STANDARD = ["return tuple(self)"]
-S_CREATE = [
-    "if j is not None and i is not None:\n    return cls.from_standard(i, j)\n"
-    "elif j is None and type(i) == int:\n    if i < 10:\n        return cls.from_voigt(i)\n    else:\n        return cls.create(str(i))\n"
-    "elif j is None and type(i) == str:\n    return cls.create(*(int(k) for k in i))\n"
-    "else:\n    raise RuntimeError(f'Invalid indices ({i}{j})')",
-]
-M_CREATE = [
-    "if len(args) == 4:\n    return cls.from_standard(*args)\n"
-    "elif len(args) == 2:\n    return cls.from_voigt(*args)\n"
-    "elif len(args) == 1 and type(args[0]) == str:\n    return cls.create(*(int(c) for c in args[0]))\n"
-    "elif len(args) == 1 and type(args[0]) == int:\n    return cls.create(str(args[0]))\n"
-    "else:\n    raise RuntimeError(f'Invalid modulus representation {args}')",
-]
+def simp(t):
+    k = t[0]
+    if k in ("leaf", "fail"):
+        return t
+    if k == "if":
+        c, a, b = t[1], simp(t[2]), simp(t[3])
+        while c[0] == "not":                      # if negb c then a else b  =  if c then b else a
+            c, a, b = c[1], b, a
+        if c[0] == "bc":
+            return a if c[1] else b
+        if tkey(a) == tkey(b):
+            return a
+        # zlookup k T = None  <->  k not among the keys;   rlookup s T = None  <->  s not among the values
+        if b == FAIL and a[0] == "bind" and (c[0], a[1][0]) in (("keymem", "tlookup"), ("valmem", "rlookup")) \
+                and a[1][1] == c[1]:
+            return a
+        return ("if", c, a, b)
+    if k == "bind":
+        return ("bind", t[1], t[2], t[3], simp(t[4]))
+    if k == "let":
+        return ("let", t[1], t[2], t[3], simp(t[4]))
+    if k == "lmatch":
+        br = {n: (us, simp(s)) for n, (us, s) in t[2].items()}
+        d = simp(t[3])
+        if d == FAIL and all(s == FAIL for _, s in br.values()):
+            return FAIL
+        return ("lmatch", t[1], br, d, t[4])
+    raise AssertionError(t)
 
 
-def expect(fn, template, what):
-    got = norm(fn)
-    if got != template:
-        raise Untranslatable("translator cannot read %s (line %d): body differs from the accepted form\n--- got\n%s\n--- accepted\n%s"
-                             % (what, fn.lineno, "\n".join(got), "\n".join(template)))
+def fv_val(v, acc):
+    if isinstance(v, (VInt, VBool, VStrain, VMod, VPair)):
+        fv(v.t, acc)
+    elif isinstance(v, VTuple):
+        for x in v.items:
+            fv_val(x, acc)
+    elif isinstance(v, VStr) and v.kind == "of_int":
+        fv(v.x, acc)
+    elif isinstance(v, VList) and v.lv[0] == "digits":
+        fv(v.lv[1], acc)
+    return acc
+
+
+def fv_tree(t, acc):
+    k = t[0]
+    if k == "leaf":
+        fv_val(t[1], acc)
+    elif k == "if":
+        fv(t[1], acc)
+        fv_tree(t[2], acc)
+        fv_tree(t[3], acc)
+    elif k == "bind":
+        c = t[1]
+        for x in (c[2] if c[0] == "call" else [c[1]]):
+            fv(x, acc)
+        inner = fv_tree(t[4], set())
+        inner.discard(t[2])
+        acc |= inner
+    elif k == "let":
+        fv(t[3], acc)
+        inner = fv_tree(t[4], set())
+        acc |= inner - set(t[1])
+    elif k == "lmatch":
+        if t[1][0] == "digits":
+            fv(t[1][1], acc)
+        for us, s in t[2].values():
+            acc |= fv_tree(s, set()) - set(us)
+        fv_tree(t[3], acc)
+    return acc
+
+
+RESERVED = set("""fst snd map sv zlookup rlookup zmem smem sort2 sort2_by sort2_lex strain_ltb b2z obind digits
+    digits_fuel option_eqb strain_eqb modkey_eqb strain modkey voigt_table negb true false Some None if then else
+    match with end fun let in as return forall exists fix cofix Type Prop Set Z nat bool list option at using
+    where mod e is_shear is_longitudinal is_off_diagonal multiplicity strain_from_voigt strain_from_standard
+    mod_from_voigt mod_from_standard mod_voigt mod_standard strain_create mod_create mod_create_int""".split())
+
+
+def ident_ok(name):
+    return name.isidentifier() and name.isascii() and name not in RESERVED and not name.startswith("_")
+
+
+class TreePrinter:
+    def __init__(self, params, order_hint, rty):
+        self.names = {p: p for p in params}
+        self.pr = Printer(self.names)
+        self.hint = order_hint
+        self.rty = rty
+
+    def pick(self, pool, scope):
+        for n in pool:
+            if n not in scope:
+                return n
+        n = 0
+        while "x%d" % n in scope:
+            n += 1
+        return "x%d" % n
+
+    def value(self, v):
+        want = {"S": VStrain, "M": VMod}[self.rty]
+        if not isinstance(v, want):
+            raise Untranslatable("a path returns %r where a %s is expected" % (v, want.__name__[1:]))
+        return self.pr.t(v.t)
+
+    def call(self, c):
+        if c[0] == "call":
+            return "(%s %s)" % (c[1], " ".join(self.pr.t(x) for x in c[2]))
+        return "(%s %s voigt_table)" % ({"tlookup": "zlookup", "rlookup": "rlookup"}[c[0]], self.pr.t(c[1]))
+
+    def order(self, br):
+        live = [n for n, (_, s) in br.items() if s != FAIL]
+        return sorted(live, key=lambda n: (self.hint.get(n, 0), n))
+
+    def pattern(self, us, scope):
+        sc = set(scope)
+        pool = "abcdefgh" if any(x in sc for x in "ijkl") else "ijklpqrs"
+        out = []
+        for u in us:
+            if u is None:
+                out.append("_")
+                continue
+            n = self.pick(pool, sc)
+            sc.add(n)
+            self.names[u] = n
+            out.append(n)
+        return "[" + "; ".join(out) + "]", sc
+
+    def lsrc(self, lv):
+        return lv[1] if lv[0] == "listvar" else "digits %s" % self.pr.t(lv[1])
+
+    def tree(self, t, scope, col):
+        k = t[0]
+        if k == "leaf":
+            return "Some " + self.value(t[1])
+        if k == "fail":
+            return "None"
+        if k == "if":
+            c = strip(self.pr.t(t[1]))
+            a = self.tree(t[2], scope, col)
+            if t[3][0] == "lmatch":
+                return "if %s then %s else\n%s%s" % (c, a, " " * col, self.tree(t[3], scope, col))
+            return "if %s then %s else %s" % (c, a, self.tree(t[3], scope, col))
+        if k == "bind":
+            c, u, bt, sub = t[1], t[2], t[3], t[4]
+            if sub[0] == "leaf" and isinstance(sub[1], (VInt, VStrain, VMod, VPair)) and sub[1].t == ("var", u, bt) \
+                    and isinstance(sub[1], {"S": VStrain, "M": VMod}[self.rty]):
+                return strip(self.call(c))                                   # obind c Some = c
+            n = self.pick("abcdefgh", scope)
+            self.names[u] = n
+            return "obind %s (fun %s => %s)" % (self.call(c), n, self.tree(sub, scope | {n}, col))
+        if k == "let":
+            (u1, u2), hints, term, sub = t[1], t[2], t[3], t[4]
+            rhs = strip(self.pr.t(term))
+            live = {self.names[u] for u in fv_tree(sub, set()) if u in self.names}
+            sc = set(scope)
+            got = []
+            for u, h in zip((u1, u2), hints):
+                n = h if ident_ok(h) else "x"
+                m = 0
+                while n in live or n in got:
+                    n = "%s%d" % (h if ident_ok(h) else "x", m)
+                    m += 1
+                got.append(n)
+                self.names[u] = n
+                sc.add(n)
+            return "let '(%s, %s) := %s in\n%s%s" % (got[0], got[1], rhs, " " * col, self.tree(sub, sc, col))
+        if k == "lmatch":
+            if t[3] != FAIL:
+                raise Untranslatable("an argument list of more than %d elements does not raise" % MAXN)
+            parts = []
+            for n in self.order(t[2]):
+                us, sub = t[2][n]
+                pat, sc = self.pattern(us, scope)
+                parts.append("%s => %s" % (pat, self.tree(sub, sc, col)))
+            return "match %s with %s | _ => None end" % (self.lsrc(t[1]), " | ".join(parts))
+        raise AssertionError(t)
+
+    def body(self, t, scope):
+        """text after ':=' of a definition (with the leading blank or line break)"""
+        k = t[0]
+        if k == "lmatch":
+            if t[3] != FAIL:
+                raise Untranslatable("an argument list of more than %d elements does not raise" % MAXN)
+            lines = ["\n  match %s with" % self.lsrc(t[1])]
+            for n in self.order(t[2]):
+                us, sub = t[2][n]
+                pat, sc = self.pattern(us, scope)
+                head = "  | %s => " % pat
+                lines.append(head + self.tree(sub, sc, len(head)))
+            tail = "  | _ => None"
+            if t[1][0] == "digits" and t[4]:
+                tail += "      (* one digit: create(int)->create(str)->create(int) never returns; others raise *)"
+            lines.append(tail)
+            lines.append("  end.")
+            return "\n".join(lines)
+        s = self.tree(t, scope, 2)
+        if k in ("leaf", "fail") or (k == "bind" and not s.startswith("obind")):
+            return " " + s + "."
+        return "\n  " + s + "."
+
+
+# ---------------------------------------------------------------------------------------------------
+# the generated file
+# ---------------------------------------------------------------------------------------------------
+
+def params_of(fn, skip, what):
+    a = fn.args
+    if a.vararg or a.kwarg or a.kwonlyargs or a.defaults or a.posonlyargs:
+        bail(fn, "%s must take plain positional parameters" % what)
+    names = [x.arg for x in a.args]
+    if len(names) < skip:
+        bail(fn, "%s has no %s parameter" % (what, "cls/self"))
+    for n in names[skip:]:
+        if not ident_ok(n):
+            bail(fn, "parameter name %s of %s clashes with a Gallina name" % (n, what))
+    return names[skip:]
 
 
 def translate(src: str) -> str:
-    mod = ast.parse(src)
-    tbl = table(mod)
-    check_reverse(mod)
-    S = find_class(mod, "StrainRepresentation")
-    M = find_class(mod, "ModulusRepresentation")
-    expect(find_def(S, "from_voigt"), S_FROM_VOIGT, "StrainRepresentation.from_voigt")
-    expect(find_def(S, "from_standard"), S_FROM_STANDARD, "StrainRepresentation.from_standard")
-    expect(find_def(S, "voigt"), S_VOIGT, "StrainRepresentation.voigt")
-    expect(find_def(S, "standard"), S_STANDARD, "StrainRepresentation.standard")
-    expect(find_def(S, "create"), S_CREATE, "StrainRepresentation.create")
-    expect(find_def(M, "from_voigt"), M_FROM_VOIGT, "ModulusRepresentation.from_voigt")
-    expect(find_def(M, "from_standard"), M_FROM_STANDARD, "ModulusRepresentation.from_standard")
-    expect(find_def(M, "voigt"), M_VOIGT, "ModulusRepresentation.voigt")
-    expect(find_def(M, "standard"), M_STANDARD, "ModulusRepresentation.standard")
-    expect(find_def(M, "create"), M_CREATE, "ModulusRepresentation.create")
-    # field order of the NamedTuples
-    for cls_, want in ((S, ["i", "j"]), (M, ["i", "j"])):
-        fields = [n.target.id for n in cls_.body if isinstance(n, ast.AnnAssign)]
-        if fields != want:
-            raise Untranslatable("%s fields %s" % (cls_.name, fields))
-    env = {"__self__": True}
-    sh, t1 = expr(single_return(find_def(M, "is_shear")), env)
-    lo, t2 = expr(single_return(find_def(M, "is_longitudinal")), env)
-    of, t3 = expr(single_return(find_def(M, "is_off_diagonal")), env)
-    mu, t4 = expr(single_return(find_def(M, "multiplicity")), env)
-    if (t1, t2, t3) != ("B", "B", "B") or t4 != "Z":
-        raise Untranslatable("predicate types")
+    import warnings
+    with warnings.catch_warnings():
+        warnings.simplefilter("ignore")
+        mod = ast.parse(src)
+    ev = Ev(mod)
+    S, M = MODELLED
+    need_lex = [False]
+
+    def finish(tp):
+        need_lex[0] = need_lex[0] or tp.pr.need_ltb
+
+    def scenario(thunk):
+        ev.order_hint, ev.cut, ev.stack = {}, False, []
+        t = simp(thunk())
+        return t, dict(ev.order_hint), ev.cut
+
+    # ---- StrainRepresentation.voigt -> sv -------------------------------------------------------------
+    fn, kind = ev.method(S, "voigt")
+    if kind != "property":
+        bail(fn, "StrainRepresentation.voigt must be a property")
+    t, _, _ = scenario(lambda: ev.call_inline(fn, [VStrain(var("s", "S"))], {}, fn))
+    if t[0] == "bind" and t[1] == ("rlookup", var("s", "S")) and t[4][0] == "leaf" and isinstance(t[4][1], VInt) \
+            and t[4][1].t == ("var", t[2], "Z"):
+        sv_def = "Definition sv (s : strain) : Z := match rlookup s voigt_table with Some v => v | None => 0 end."
+    elif t[0] == "leaf" and isinstance(t[1], (VInt, VBool)):
+        tp = TreePrinter(["s"], {}, "S")
+        sv_def = "Definition sv (s : strain) : Z := %s." % strip(tp.pr.t(ev.as_z(t[1], fn)))
+        finish(tp)
+        if "(sv " in sv_def:
+            bail(fn, "StrainRepresentation.voigt refers to itself")
+    else:
+        bail(fn, "StrainRepresentation.voigt is neither STANDARD_TO_VOIGT[self] nor a total integer expression")
+
+    # ---- the four from_* constructors -------------------------------------------------------------------
+    ctor = {}
+    for (cname, mname), (coq, rty) in INTERFACE.items():
+        fn, kind = ev.method(cname, mname)
+        if kind != "classmethod":
+            bail(fn, "%s.%s must be a classmethod" % (cname, mname))
+        ps = params_of(fn, 1, "%s.%s" % (cname, mname))
+        t, hint, _ = scenario(lambda: ev.call_inline(fn, [VClass(cname)] + [VInt(var(p, "Z")) for p in ps], {}, fn))
+        tp = TreePrinter(ps, hint, rty)
+        ctor[coq] = "Definition %s (%s : Z) : option %s :=%s" % (
+            coq, " ".join(ps), {"S": "strain", "M": "modkey"}[rty], tp.body(t, set(ps)))
+        finish(tp)
+
+    # ---- views of a modulus key ---------------------------------------------------------------------------
+    def view(mname, n):
+        fn, kind = ev.method(M, mname)
+        if kind != "property":
+            bail(fn, "ModulusRepresentation.%s must be a property" % mname)
+        t, _, _ = scenario(lambda: ev.call_inline(fn, [VMod(var("m", "M"))], {}, fn))
+        if t[0] == "leaf" and not isinstance(t[1], VTuple):
+            t = scenario(lambda: ev.items_of(t[1], fn))[0]
+            t = ("leaf", VTuple(t[1])) if t[0] == "leaf" and isinstance(t[1], list) else t
+        if t[0] != "leaf" or not isinstance(t[1], VTuple) or len(t[1].items) != n or \
+                not all(isinstance(x, VInt) for x in t[1].items):
+            bail(fn, "ModulusRepresentation.%s must be a total tuple of %d integers" % (mname, n))
+        tp = TreePrinter(["m"], {}, "M")
+        out = "(" + ", ".join(strip(tp.pr.t(x.t)) for x in t[1].items) + ")"
+        finish(tp)
+        return out
+    mod_voigt = view("voigt", 2)
+    mod_standard = view("standard", 4)
+
+    # ---- create / _ ---------------------------------------------------------------------------------------
+    def entry(cname, args):
+        fn, kind = ev.method(cname, "_")
+        if kind != "classmethod":
+            bail(fn, "%s._ must be a classmethod" % cname)
+        return ev.apply(VMethod(cname, fn, VClass(cname)), args, {}, fn)
+
+    def by_list(cname):
+        return bind(ev.items_of(VList(("listvar", "args")), None),
+                    lambda items: entry(cname, [items] if isinstance(items, VLong) else items))
+
+    def show(t, rty, hint, scope):
+        tp = TreePrinter(sorted(scope), hint, rty)
+        s = tp.body(t, set(scope))
+        finish(tp)
+        return s
+
+    created = {}
+    for cname, rty, coq in ((S, "S", "strain_create"), (M, "M", "mod_create")):
+        t_list, hint, _ = scenario(lambda: by_list(cname))
+        t_str, _, _ = scenario(lambda: entry(cname, [VStr("of_list", ("listvar", "args"))]))
+        a, b = show(t_list, rty, {}, {"args"}), show(t_str, rty, {}, {"args"})
+        if a != b:
+            raise Untranslatable("%s._(\"digits\") is not %s._(*digits): the string spelling translates to\n%s\nbut the "
+                                 "list spelling to\n%s" % (cname, cname, b, a))
+        if cname == M and t_list[0] == "lmatch":
+            br = dict(t_list[2])
+            br[1] = ([None], FAIL)                   # a single int is mod_create_int
+            t_list = simp(("lmatch", t_list[1], br, t_list[3], t_list[4]))
+        created[coq] = "Definition %s (args : list Z) : option %s :=%s" % (
+            coq, {"S": "strain", "M": "modkey"}[rty], show(t_list, rty, hint, {"args"}))
+    t_int, hint, cut = scenario(lambda: entry(M, [VInt(var("n", "Z"))]))
+    if t_int[0] == "lmatch" and cut:
+        t_int = t_int[:4] + (True,)
+    created["mod_create_int"] = "Definition mod_create_int (n : Z) : option modkey :=%s" % show(t_int, "M", hint, {"n"})
+
+    # ---- predicates -------------------------------------------------------------------------------------------
+    defs = {}
+    for name in PREDICATES + ("multiplicity",):
+        fn, kind = ev.method(M, name)
+        if kind != "property":
+            bail(fn, "ModulusRepresentation.%s must be a property" % name)
+        t, _, _ = scenario(lambda: ev.call_inline(fn, [VMod(var("m", "M"))], {}, fn))
+        want = VInt if name == "multiplicity" else VBool
+        if t[0] != "leaf" or not isinstance(t[1], want):
+            bail(fn, "ModulusRepresentation.%s must be a total %s expression" % (name, "integer" if want is VInt else "boolean"))
+        tp = TreePrinter(["m"], {}, "M")
+        defs[name] = tp.pr.t(t[1].t)
+        finish(tp)
+    mu = defs.pop("multiplicity")
+    if "(multiplicity m)" in mu:
+        raise Untranslatable("multiplicity refers to itself")
     # the three predicates reference each other; order them so that definitions are well-founded
-    defs = {"is_shear": sh, "is_longitudinal": lo, "is_off_diagonal": of}
     order, left = [], dict(defs)
     while left:
         prog = False
         for n, body in list(left.items()):
-            if not any(("(%s m)" % o) in body for o in left if o != n) and ("(%s m)" % n) not in body:
+            if not any(("(%s " % o) in body for o in left if o != n) and ("(%s " % n) not in body:
                 order.append(n)
                 del left[n]
                 prog = True
         if not prog:
             raise Untranslatable("cyclic predicate definitions")
+    if any(("(%s " % p) in sv_def or "(multiplicity " in sv_def for p in PREDICATES):
+        raise Untranslatable("StrainRepresentation.voigt depends on a modulus predicate")
+
     out = []
     out.append("(* GENERATED from /repo/cij/util/voigt.py by tools/translate_voigt.py - do not edit *)")
     out.append("From Coq Require Import ZArith List Bool.\nFrom Cij Require Import VoigtBase.\nImport ListNotations.\nLocal Open Scope Z_scope.\n")
     out.append("Definition voigt_table : list (Z * strain) :=\n  [%s]." % "; ".join(
-        "(%s, (%s, %s))" % (z(k), z(a), z(b)) for k, (a, b) in tbl))
-    out.append("""
-Definition sv (s : strain) : Z := match rlookup s voigt_table with Some v => v | None => 0 end.
-Definition strain_from_voigt (i : Z) : option strain := zlookup i voigt_table.
-Definition strain_from_standard (i j : Z) : option strain :=
-  let '(i, j) := sort2 i j in
-  if smem (i, j) (map snd voigt_table) then Some (i, j) else None.
-Definition mod_from_voigt (i j : Z) : option modkey :=
-  obind (strain_from_voigt i) (fun a => obind (strain_from_voigt j) (fun b => Some (sort2_by sv a b))).
-Definition mod_from_standard (i j k l : Z) : option modkey :=
-  obind (strain_from_standard i j) (fun a => obind (strain_from_standard k l) (fun b => Some (sort2_by sv a b))).
-Definition mod_voigt (m : modkey) : Z * Z := (sv (fst m), sv (snd m)).
-Definition mod_standard (m : modkey) : Z * Z * Z * Z := (fst (fst m), snd (fst m), fst (snd m), snd (snd m)).
-(* create(...) dispatch on the number of indices, as in the two create() classmethods *)
-Definition strain_create (args : list Z) : option strain :=
-  match args with
-  | [i] => if i <? 10 then strain_from_voigt i else
-           match digits i with [a; b] => strain_from_standard a b | _ => None end
-  | [i; j] => strain_from_standard i j
-  | _ => None
-  end.
-Definition mod_create (args : list Z) : option modkey :=
-  match args with
-  | [i; j; k; l] => mod_from_standard i j k l
-  | [i; j] => mod_from_voigt i j
-  | _ => None
-  end.
-Definition mod_create_int (n : Z) : option modkey :=
-  match digits n with
-  | [i; j; k; l] => mod_from_standard i j k l
-  | [i; j] => mod_from_voigt i j
-  | _ => None      (* one digit: create(int)->create(str)->create(int) never returns; others raise *)
-  end.
-""")
+        "(%s, (%s, %s))" % (z(k), z(a), z(b)) for k, (a, b) in ev.table))
+    block = ["", (LEX_DEFS if need_lex[0] else "") + sv_def]
+    for coq in ("strain_from_voigt", "strain_from_standard", "mod_from_voigt", "mod_from_standard"):
+        block.append(ctor[coq])
+    block.append("Definition mod_voigt (m : modkey) : Z * Z := %s." % mod_voigt)
+    block.append("Definition mod_standard (m : modkey) : Z * Z * Z * Z := %s." % mod_standard)
+    block.append("(* create(...) dispatch on the number of indices, as in the two create() classmethods *)")
+    block.append(created["strain_create"])
+    block.append(created["mod_create"])
+    block.append(created["mod_create_int"])
+    block.append("")
+    out.append("\n".join(block))
     for n in order:
         out.append("Definition %s (m : modkey) : bool := %s." % (n, defs[n]))
     out.append("Definition multiplicity (m : modkey) : Z := %s." % mu)
